@@ -556,5 +556,15 @@ def r09_9(ctx):
     delegate(ctx, c05.r05_6, lambda c: "registered after nested ifs" in c)
 
 
+def r09_10(ctx):
+    """R09.10 evaluating an accepted tree does not trip over the evaluator's own bookkeeping: in esp_kconfiglib.core every local that
+    is bound by plain assignments is assigned on every path before it is read (mypy's `possibly-undefined`, decided over the
+    statement flow) - a read that can come first raises UnboundLocalError out of str_value / config_string / write_config."""
+    from .common import definitely_assigned
+    n = definitely_assigned(ctx, [CORE], "the tree was accepted but cannot be evaluated")
+    if n < 80:
+        raise AnalysisError(f"only {n} functions with plain locals examined in {CORE}")
+
+
 def rules():
-    return [("R09.9", r09_9, 1), ("R09.8", r09_8, 1), ("R09.7", r09_7, 2), ("R09.6", r09_6, 6), ("R09.1", r09_1, 14), ("R09.1b", r09_1b, 3), ("R09.2", r09_2, 6), ("R09.3", r09_3, 8), ("R09.4", r09_4, 5), ("R09.5", r09_5, 10)]
+    return [("R09.10", r09_10, 80), ("R09.9", r09_9, 1), ("R09.8", r09_8, 1), ("R09.7", r09_7, 2), ("R09.6", r09_6, 6), ("R09.1", r09_1, 14), ("R09.1b", r09_1b, 3), ("R09.2", r09_2, 6), ("R09.3", r09_3, 8), ("R09.4", r09_4, 5), ("R09.5", r09_5, 10)]
